@@ -28,7 +28,7 @@ def ms(x):
     return int(round(x * UNIT))
 
 
-EVK = {'r': 'ERead', 'w': 'EWrite', 'start': 'EStart', 'stop': 'EStop',
+EVK = {'r': 'ERead', 'ru': 'ERead', 'w': 'EWrite', 'start': 'EStart', 'stop': 'EStop',
        'wait': 'EWait'}
 
 
@@ -88,6 +88,13 @@ class Driver(concdrv.ConcMixin):
             rt.advance(dt / float(UNIT))
             if kind == 'r':
                 br.send(0, HbFrame())
+                br.flush()
+                vrt.pump_all()
+                log.append(('r', rt.now, len(rt.trace)))
+            elif kind == 'ru':
+                # any inbound frame is a life sign - also one for a channel the client
+                # does not (or no longer) know
+                br.send(7, spec.Basic.Ack(delivery_tag=1))
                 br.flush()
                 vrt.pump_all()
                 log.append(('r', rt.now, len(rt.trace)))
@@ -152,7 +159,7 @@ class Driver(concdrv.ConcMixin):
             quiet += d
             if running and I and quiet >= 3 * I:
                 running = False          # declared dead by now
-            if k == 'r':
+            if k in ('r', 'ru'):
                 quiet = 0 if running else quiet
             elif k == 'start':
                 if running:
@@ -171,7 +178,7 @@ class Driver(concdrv.ConcMixin):
         for T in ([1, 3] if tier == 'quick' else [1, 2, 3]):
             I = 512 * T
             steps = [0, I // 2, I - 1, I, I + 1, 2 * I]
-            kinds = ['r', 'w', 'wait', 'stop', 'start']
+            kinds = ['r', 'ru', 'w', 'wait', 'stop', 'start']
             alpha = [(k, d) for k in kinds for d in steps] + [('wait', 3 * I), ('start', 3 * I)]
             count = 0
             for n in range(1, depth + 1):
@@ -201,6 +208,8 @@ class Driver(concdrv.ConcMixin):
                      'writes': [1, 8, 2, 0.3, 0.3],
                      'quiet': [0.5, 0.5, 8, 0.5, 0.5]}[mode]
                 k = rnd.choices(['r', 'w', 'wait', 'stop', 'start'], w)[0]
+                if k == 'r' and rnd.random() < 0.3:
+                    k = 'ru'
                 if T and rnd.random() < 0.04:
                     # a long silence (the peer is declared dead), then the connection is
                     # re-opened: start() without a stop() in between
